@@ -115,6 +115,7 @@ class TcpConnection():
             for key, mask in self.events:
                 if key.data is not None:
                     self.data_stream += key.data
+                    self.selector.modify(self.sock, self.events_mask)
 
                 if mask & selectors.EVENT_WRITE:
                     tcp_connection.debug(f"Selector notified EVENT_WRITE")
